@@ -897,14 +897,14 @@ func (ea ExpressionAttribute) String() string {
 	return sb.String()
 }
 
-func (ea ExpressionAttribute) formatExpression() (exp []string) {
+func (ea ExpressionAttribute) formatExpression() (exp []string, verbatim []bool) {
 	trimmed := strings.TrimSpace(ea.Expression.Value)
 	if !strings.Contains(trimmed, "\n") {
 		formatted, err := format.Source([]byte(trimmed))
 		if err != nil {
-			return []string{trimmed}
+			return []string{trimmed}, nil
 		}
-		return []string{string(formatted)}
+		return []string{string(formatted)}, nil
 	}
 
 	buf := bytes.NewBufferString("[]any{\n")
@@ -913,21 +913,31 @@ func (ea ExpressionAttribute) formatExpression() (exp []string) {
 
 	formatted, err := format.Source(buf.Bytes())
 	if err != nil {
-		return []string{trimmed}
+		return []string{trimmed}, nil
 	}
 
 	// Trim prefix and suffix.
 	lines := strings.Split(string(formatted), "\n")
 	if len(lines) < 3 {
-		return []string{trimmed}
+		return []string{trimmed}, nil
+	}
+
+	// Indent all lines and re-format: gofmt undoes that, except on lines that start inside a raw string or a
+	// comment. Those are content, they must be written as they are.
+	verbatim = make([]bool, len(lines))
+	if reformatted, err := format.Source(bytes.ReplaceAll(formatted, []byte("\n"), []byte("\n\t"))); err == nil {
+		reformattedLines := strings.Split(string(reformatted), "\n")
+		for i := range lines {
+			verbatim[i] = i < len(reformattedLines) && lines[i] != reformattedLines[i]
+		}
 	}
 
 	// Return.
-	return lines[1 : len(lines)-1]
+	return lines[1 : len(lines)-1], verbatim[1 : len(lines)-1]
 }
 
 func (ea ExpressionAttribute) Write(w io.Writer, indent int) (err error) {
-	lines := ea.formatExpression()
+	lines, verbatim := ea.formatExpression()
 	if len(lines) == 1 {
 		return writeIndent(w, indent, ea.Name, `={ `, lines[0], ` }`)
 	}
@@ -935,7 +945,13 @@ func (ea ExpressionAttribute) Write(w io.Writer, indent int) (err error) {
 	if err = writeIndent(w, indent, ea.Name, "={\n"); err != nil {
 		return err
 	}
-	for _, line := range lines {
+	for i, line := range lines {
+		if verbatim[i] {
+			if _, err = io.WriteString(w, line+"\n"); err != nil {
+				return err
+			}
+			continue
+		}
 		if err = writeIndent(w, indent, line, "\n"); err != nil {
 			return err
 		}
